@@ -1,6 +1,7 @@
 package props
 
 import (
+	"go/types"
 	"fmt"
 	"strings"
 
@@ -56,33 +57,47 @@ func checkReference(c *fw.Ctx) {
 	rule2 := "2 alphabet"
 	type row struct{ global, want string }
 	rows := []row{{"encoding/base64.RawStdEncoding", "EventIDFormat(…) == 2"}, {"encoding/base64.RawURLEncoding", "EventIDFormat(…) == 3"}}
+	deep := fw.DeepInstrs(fn, nil)
 	for _, r := range rows {
 		found := 0
-		for _, b := range fn.Blocks {
-			for _, ins := range b.Instrs {
-				u, ok := ins.(*ssa.UnOp)
-				if !ok {
-					continue
-				}
-				g, ok := u.X.(*ssa.Global)
-				if !ok || fw.Short(g.String()) != r.global {
-					continue
-				}
-				found++
-				conds := fw.DomConds(b)
+		for _, di := range deep {
+			u, ok := di.Instr.(*ssa.UnOp)
+			if !ok {
+				continue
+			}
+			g, ok := u.X.(*ssa.Global)
+			if !ok || fw.Short(g.String()) != r.global {
+				continue
+			}
+			found++
+			cond, okC := fw.CondAt(di.Fr, u.Block())
+			if !okC {
+				c.Undecided(rule2, r.global+" selection", "path condition too large")
+				continue
+			}
+			want := map[string]string{"encoding/base64.RawStdEncoding": "2", "encoding/base64.RawURLEncoding": "3"}[r.global]
+			// every way of reaching the use must have established eventIDFormat == want and eventFormat == 2
+			okAll := len(cond) > 0
+			detail := ""
+			for _, term := range cond {
 				var fmtAtom, evAtom string
-				for _, f := range conds {
-					if containsAll(f.Sig, ".EventIDFormat(", " == ") && f.Taken {
-						fmtAtom = f.Sig[strings.LastIndex(f.Sig, "== ")+3:]
-						fmtAtom = strings.TrimSuffix(fmtAtom, ")")
+				for _, l := range term {
+					if !l.Pos {
+						continue
 					}
-					if containsAll(f.Sig, ".EventFormat(", " == 2)") && f.Taken {
+					if containsAll(l.Atom, ".EventIDFormat(", " == ") {
+						fmtAtom = strings.TrimSuffix(l.Atom[strings.LastIndex(l.Atom, "== ")+3:], ")")
+					}
+					if containsAll(l.Atom, ".EventFormat(", " == 2)") {
 						evAtom = "2"
 					}
 				}
-				want := map[string]string{"encoding/base64.RawStdEncoding": "2", "encoding/base64.RawURLEncoding": "3"}[r.global]
-				c.Check(fmtAtom == want && evAtom == "2", rule2, r.global+" is selected by "+r.want, c.P.Pos(fw.InstrPos(u)), "", fmt.Sprintf("alphabet %s is used when eventIDFormat == %s (event format %s); the specification prescribes %s", r.global, fmtAtom, evAtom, r.want))
+				if fmtAtom != want || evAtom != "2" {
+					okAll = false
+					detail = fmt.Sprintf("alphabet %s is used when eventIDFormat == %q (event format %q); the specification prescribes %s", r.global, fmtAtom, evAtom, r.want)
+				}
 			}
+			c.Check(okAll, rule2, r.global+" is selected by "+r.want, c.P.Pos(fw.InstrPos(u)), "", detail)
 		}
 		c.Check(found == 1, rule2, r.global+" is used exactly once", c.P.Pos(fn.Pos()), "", fmt.Sprintf("%d uses", found))
 	}
@@ -351,50 +366,142 @@ func checkHeadered(c *fw.Ctx) {
 	}
 }
 
+// firstElemSig describes the first element of the string slice v: "empty" for a slice that
+// is provably empty, the signature of the first element when it is determined structurally
+// (array literal, append onto an empty or determined base), "?" otherwise.
+func firstElemSig(v ssa.Value, depth int) string {
+	if depth > 8 || v == nil {
+		return "?"
+	}
+	switch x := v.(type) {
+	case *ssa.Const:
+		if x.Value == nil {
+			return "empty"
+		}
+	case *ssa.MakeSlice:
+		if n, ok := fw.ConstInt(x.Len); ok && n == 0 {
+			return "empty"
+		}
+	case *ssa.Slice:
+		if al, ok := x.X.(*ssa.Alloc); ok && x.Low == nil {
+			arr, isArr := al.Type().Underlying().(*types.Pointer).Elem().Underlying().(*types.Array)
+			if isArr && arr.Len() == 0 {
+				return "empty"
+			}
+			if elems, ok := fw.VariadicElems(x); ok && len(elems) > 0 {
+				return fw.Sig(elems[0])
+			}
+		}
+	case *ssa.Call:
+		if fw.CalleeName(x) == "builtin.append" && len(x.Call.Args) == 2 {
+			base := firstElemSig(x.Call.Args[0], depth+1)
+			if base != "empty" {
+				return base
+			}
+			return firstElemSig(x.Call.Args[1], depth+1)
+		}
+	case *ssa.Phi:
+		out := ""
+		for _, e := range x.Edges {
+			s := firstElemSig(e, depth+1)
+			if out != "" && s != out {
+				return "?"
+			}
+			out = s
+		}
+		if out != "" {
+			return out
+		}
+	}
+	return "?"
+}
+
+// createAtoms interprets the two atoms of the "is the create event" test, in whichever
+// function or helper they are spelled.
+func createAtoms(atom string, a asg) (bool, bool) {
+	switch {
+	case strings.Contains(atom, ".Type(") && strings.HasSuffix(atom, `== "m.room.create")`):
+		return a["createType"] == "true", true
+	case strings.Contains(atom, "StateKeyEquals(") && strings.HasSuffix(atom, `,"")`):
+		return a["emptyStateKey"] == "true", true
+	}
+	return false, false
+}
+
 func checkV12Auth(c *fw.Ctx) {
 	rule := "8 v12-auth"
+	boolv := []string{"true", "false"}
 	if fn := mustFunc(c, rule, "(*eventV3).AuthEventIDs"); fn != nil {
-		n := 0
-		for _, r := range fw.Returns(fn) {
-			conds := condsOf(r.Block())
-			s := fw.Sig(r.Results[0])
-			create := strings.Contains(conds, "StateKeyEquals(") && !strings.HasPrefix(conds, "!")
-			if create {
-				continue
+		want := `("$" + *recv.eventV2.eventV1.eventFields.RoomID[1:])`
+		ip := &interp{match: func(atom string, a asg) (bool, bool) {
+			if v, ok := createAtoms(atom, a); ok {
+				return v, ok
 			}
-			n++
-			// every non-create return contains the create event id computed from the room id now
-			ok := fw.DerivesFrom(r.Results[0], fw.FlowSpec{IsSource: func(v ssa.Value) bool {
-				cc, _ := fw.CallOf(v)
-				return cc != nil && fw.CalleeName(cc) == "fmt.Sprintf" && strings.HasPrefix(fw.Sig(cc.Common().Args[0]), `"$%s"`)
-			}, Through: func(cl ssa.CallInstruction) []int {
-				if fw.CalleeName(cl) == "builtin.append" {
-					return []int{0}
-				}
-				return nil
-			}})
-			c.Check(ok, rule, "eventV3.AuthEventIDs always reports the create event first (computed from the room id)", c.P.Pos(fw.InstrPos(r)), "", "a non-create v12 event can report auth events without the create event: returns "+s)
-		}
-		c.Min(rule+" non-create returns", n, 1)
-		// it must read RoomID at call time
-		okRead := false
-		for _, b := range fn.Blocks {
-			for _, ins := range b.Instrs {
-				if st, ok := ins.(*ssa.Store); ok && strings.Contains(fw.Sig(st.Val), "eventFields.RoomID[:]") {
-					okRead = true
+			if x, op, y, ok := parseCmp(atom); ok && strings.HasPrefix(x, "builtin.len(") && strings.Contains(x, "AuthEvents") && y == "0" {
+				switch op {
+				case ">":
+					return a["hasAuth"] == "true", true
+				case "==":
+					return a["hasAuth"] != "true", true
 				}
 			}
-		}
-		c.Check(okRead, rule, "the create event id is \"$\" + room_id[1:]", c.P.Pos(fn.Pos()), "", "the create event id is not derived from eventFields.RoomID[1:]")
+			return false, false
+		}}
+		compareTable(c, rule, "eventV3.AuthEventIDs: empty for the create event, otherwise the create event id (\"$\"+room_id[1:]) first", fn, 0,
+			[]tvar{{"createType", boolv}, {"emptyStateKey", boolv}, {"hasAuth", boolv}}, ip,
+			func(a asg) string {
+				if a["createType"] == "true" && a["emptyStateKey"] == "true" {
+					return "empty"
+				}
+				return "create-first"
+			},
+			func(r fw.Row) string {
+				switch s := firstElemSig(r.Val, 0); s {
+				case "empty":
+					return "empty"
+				case want:
+					return "create-first"
+				default:
+					return "first=" + s
+				}
+			})
 	}
 	if fn := mustFunc(c, rule, "(*eventV3).RoomID"); fn != nil {
-		ok := false
-		for _, call := range fw.CallsTo(fn, false, fw.NameIs("fmt.Sprintf")) {
-			if strings.HasPrefix(fw.Sig(call.Common().Args[0]), `"!%s"`) && strings.Contains(condsOf(call.Block()), "StateKeyEquals(") {
-				ok = true
+		calls := fw.CallsTo(fn, false, fw.NameIs("gmsl/spec.NewRoomID"))
+		c.Check(len(calls) == 1, rule, "eventV3.RoomID parses one id string", c.P.Pos(fn.Pos()), "", fmt.Sprintf("%d calls of spec.NewRoomID", len(calls)))
+		for _, call := range calls {
+			rows, err := fw.ValueRows(fn, call.Common().Args[0], call.Block())
+			if err != nil {
+				c.Undecided(rule, "eventV3.RoomID id string", err.Error())
+				continue
+			}
+			known := func(atom string) bool { _, ok := createAtoms(atom, asg{}); return ok }
+			bad := 0
+			enumerate([]tvar{{"createType", boolv}, {"emptyStateKey", boolv}}, func(a asg) {
+				want := "*recv.eventV2.eventV1.eventFields.RoomID"
+				if a["createType"] == "true" && a["emptyStateKey"] == "true" {
+					want = `("!" + (*gmsl.eventV2).EventID(recv.eventV2)[1:])`
+				}
+				env := func(atom string) (bool, bool) { return createAtoms(atom, a) }
+				for _, r := range rows {
+					unk := map[string]bool{}
+					if !evalDNF(fw.ExpandDNF(r.Cond, known), env, unk) {
+						if len(unk) > 0 {
+							bad++
+							c.Undecided(rule, "eventV3.RoomID: unrecognised branch condition", strings.Join(sortedSet(unk), "; "))
+						}
+						continue
+					}
+					if got := fw.Sig(r.Val); got != want {
+						bad++
+						c.Fail(rule, "a v12 create event's room id is \"!\" + event_id[1:], any other event's is its room_id field", c.P.Pos(call.Pos()), fmt.Sprintf("for [%s] the id string is %s, expected %s", a.String(), got, want))
+					}
+				}
+			})
+			if bad == 0 {
+				c.Ok(rule, "a v12 create event's room id is \"!\" + event_id[1:], any other event's is its room_id field", c.P.Pos(call.Pos()), fmt.Sprintf("%d alternatives", len(rows)))
 			}
 		}
-		c.Check(ok, rule, "a v12 create event's room id is \"!\" + event_id[1:]", c.P.Pos(fn.Pos()), "", "no Sprintf(\"!%s\", EventID()[1:]) under the create-event test")
 	}
 	if fn := mustFunc(c, rule, "(*EventBuilder).AddAuthEvents"); fn != nil {
 		c.CheckGate(rule, fn, "(*EventBuilder).AddAuthEvents", fw.GuardCallErrNil("StateNeededForProtoEvent", fw.NameIs("gmsl.StateNeededForProtoEvent")), fw.ErrNilSuccess(fn, fw.ErrIndex(fn), nil))
@@ -403,7 +510,7 @@ func checkV12Auth(c *fw.Ctx) {
 		okSkip := false
 		for _, iff := range fw.Ifs(fn) {
 			s := fw.Sig(iff.Cond)
-			if containsAll(s, `("$" + *recv.RoomID[:])`, " == ") && strings.Contains(condsOf(iff.Block()), ".DomainlessRoomIDs(") {
+			if containsAll(s, `("$" + *recv.RoomID[1:])`, " == ") && strings.Contains(condsOf(iff.Block()), ".DomainlessRoomIDs(") {
 				okSkip = true
 			}
 		}
